@@ -51,6 +51,65 @@ func ruleReattach(c *Ctx) {
 	}
 	hold(nStores >= 1 && okStores, "runner recorded only outside test mode", "Client.runner is stored only on the false edge of Reattach.Test, so Kill cannot reach a test-mode server's process",
 		"in test mode the reattached runner is recorded (or outside test mode it is not): Kill would kill the in-process test server / could not kill a real plugin")
+	// client state is recorded only once the attach has succeeded: a failed
+	// reattach must leave the client as it was (Start's "already started"
+	// shortcut tests Client.address)
+	{
+		var rfNode *Node
+		var rfErr *types.Var
+		for _, m := range g.Nodes {
+			as, ok := m.Ast.(*ast.AssignStmt)
+			if !ok || len(as.Rhs) != 1 || len(as.Lhs) != 2 {
+				continue
+			}
+			call, ok := ast.Unparen(as.Rhs[0]).(*ast.CallExpr)
+			if !ok {
+				continue
+			}
+			if t := info.TypeOf(call); t != nil {
+				if tup, ok := t.(*types.Tuple); ok && tup.Len() == 2 && strings.HasSuffix(tup.At(0).Type().String(), "runner.AttachedRunner") {
+					rfNode = m
+					rfErr, _ = identObj(info, as.Lhs[1]).(*types.Var)
+				}
+			}
+		}
+		if rfNode == nil || rfErr == nil {
+			c.R.Undecided("R-REATTACH", f.Name, "attach call", "the call that returns the attached runner was not found")
+		} else {
+			early := g.Reach([]*Node{g.Entry}, func(x *Node) bool { return x == rfNode }, nil)
+			failed := map[*Node]*Edge{}
+			for _, m := range g.Nodes {
+				for _, e := range m.Succs {
+					at, isAt := edgeAtom(info, e)
+					if isAt && at.Kind == "nil" && at.Op == token.NEQ && identObj(info, at.X) == rfErr {
+						for k, v := range g.Reach([]*Node{e.To}, nil, nil) {
+							failed[k] = v
+						}
+					}
+				}
+			}
+			var bad ast.Node
+			for _, set := range []map[*Node]*Edge{early, failed} {
+				for m := range set {
+					as, ok := m.Ast.(*ast.AssignStmt)
+					if !ok {
+						continue
+					}
+					for _, l := range as.Lhs {
+						if fv := SelField(info, l); fv != nil && strings.HasPrefix(p.FieldName(fv), "Client.") {
+							bad = as
+						}
+					}
+				}
+			}
+			if bad != nil {
+				c.R.Violate("R-REATTACH", p.Pos(bad), f.Name, "client state recorded only after a successful attach",
+					"a field of the Client is assigned before the attach call has succeeded (or on its error path): after a failed reattach the client keeps that state, and since Start treats a recorded address as \"already started\" the next Start/Client/Protocol call reports success for a plugin that was never reached", nil)
+			} else {
+				c.R.Hold("R-REATTACH", p.Pos(rfNode.Ast), f.Name, "client state recorded only after a successful attach", "no store to a Client field is reachable before the attach call or from its error edge", true)
+			}
+		}
+	}
 	// address and protocol come from the reattach config
 	srcOf := func(dst *types.Var) []*types.Var {
 		var out []*types.Var
